@@ -403,6 +403,10 @@ def gen_doc(rng):
             body["pageby_row"] = "first_row"
     if body_conv is not None:
         body["text_convert"] = body_conv
+    if rng.random() < 0.5:
+        # any of the ten fonts (three of them declare a non-ANSI \fcharset in the font table: what a reader makes of
+        # \'hh and raw bytes depends on it, what it makes of \uN does not)
+        body["text_font"] = rng.randint(1, 10)
     # group keys as contiguous runs (page_by groups nested inside subline_by groups)
     ngs, ngp = rng.randint(1, 2), rng.randint(1, 2)
     pairs = sorted((rng.randrange(ngs), rng.randrange(ngp)) for _ in range(nrows))
@@ -449,6 +453,8 @@ def gen_doc(rng):
         d = dict(text=lines if nlines > 1 or rng.random() < 0.5 else lines[0], **extra)
         if conv is not None:
             d["text_convert"] = conv
+        if rng.random() < 0.4:
+            d["text_font"] = rng.randint(1, 10)
         return d
 
     spec = dict(kind="table", df=dict(cols=keycols + names, rows=rows), page=dict(nrow=rng.choice((8, 12, 40))),
